@@ -17,7 +17,7 @@ OUTSIDE = sched.OUTSIDE
 BOUNDS = {'quick': {'tasks': 2, 'graphs': 'all 3 acyclic labelled graphs on 2 tasks + the three 2-cycles + the hard 3-cycle', 'workers': [1],
                     'plus': '3-task fan-in hard+soft with 1 worker', 'outcomes': KINDS,
                     'depth': 'every run, first K = 22+11N+6W steps'},
-          'thorough': {'tasks': '<= 3', 'graphs': 'all 27 acyclic labelled graphs on 3 tasks (W=1), 2-task graphs W<=3, six 3-task graphs W=2, cycles',
+          'thorough': {'tasks': '<= 3', 'graphs': 'all 27 acyclic labelled graphs on 3 tasks (W=1), 2-task graphs W<=3, cycles',
                        'outcomes': KINDS, 'depth': 'K established by the unwinding query (bounded termination)'}}
 EXPLANATION = ('extracted thread automata + z3 bounded model checking (QF_BV): no reachable state of any interleaving is quiescent with an '
                'unfinished thread; in the thorough tier the unwinding query also bounds the length of every run; counterexamples replayed on real threads')
